@@ -65,6 +65,11 @@ mut("C04", "tdm-transform-skips-z", "quantarhei/qm/hilbertspace/dmoment.py",
 mut("C04", "tdredfield-ops-Ld-not-transformed", "quantarhei/qm/liouvillespace/tdredfieldtensor.py",
     "                    self._Ld[tt, m, :, :] = \\\n                    numpy.dot(S1,numpy.dot(self._Ld[tt, m, :, :],SS))            \n", "")
 
+mut("C04", "operator-registered-before-built", "quantarhei/qm/hilbertspace/operators.py",
+    "            self.set_current_basis(cb)\n                \n            self.name=name\n", "            self.set_current_basis(cb)\n            if cb != 0:\n                self.manager.register_with_basis(cb, self)\n                \n            self.name=name\n")
+mut("C04", "evolution-at-returns-view-again", "quantarhei/qm/propagators/dmevolution.py",
+    "        return ReducedDensityMatrix(data=self.data[ti, :, :].copy())", "        return ReducedDensityMatrix(data=self.data[ti, :, :])")
+
 # ------------------------------------------------------------------ C05
 mut("C05", "exit-restores-internal-instead-of-backup", MAN,
     "        self.manager.set_current_units(\"energy\",self.units_backup)\n        self.manager._in_eu_count -= 1",
